@@ -131,6 +131,62 @@ theorem change_announced (o : Oracle V E) (e : Entry V E) (now : Int) :
   · intro v hv; unfold announceR; rw [emits_changed o e now v hv]; simp
   · intro x hx; unfold announceR; rw [emits_error o e now x hx]; simp
 
+/-! ### parameter callbacks -/
+
+/-- The `except` clause around the call of a parameter callback (regenerated from the source on every run) catches
+every outcome: a callback that returns, one that raises `TypeError`, one that raises any other `Exception`.  The
+callbacks run after the stores into the entry and before the dispatcher is told. -/
+theorem callbacks_all_caught :
+    (∀ oc, catches Frappy.Generated.C05.callbackCaught oc = true) ∧
+    Frappy.Generated.C05.callbacksAfterStores = true ∧ Frappy.Generated.C05.callbacksBeforeNotify = true := by
+  refine ⟨fun oc => ?_, by decide, by decide⟩
+  cases oc <;> decide
+
+/-- Replay reproduces the cache for ALL outcomes of ALL callbacks registered for the parameter, as long as the
+`except` clause catches every outcome (`callbacks_all_caught`). -/
+theorem replay_eq_cache_callbacks (o : Oracle V E) (ex : V → X) (h : ExportExact o ex) (caught : CbOutcome → Bool)
+    (hc : ∀ oc, caught oc = true) (e : Entry V E) (evs : List (CEv V E)) :
+    replay (e.ve.map ex) ((runC o caught e evs).msgs.map (fun m => m.ve.map ex)) = (runC o caught e evs).entry.ve.map ex := by
+  rw [runC_eq o caught hc]
+  exact replay_runR o ex h e _
+
+/-- A recovery from an error is announced whatever the callbacks do (under `callbacks_all_caught`). -/
+theorem recovery_announced_callbacks (o : Oracle V E) (caught : CbOutcome → Bool) (hc : ∀ oc, caught oc = true)
+    (e : Entry V E) (now : Int) (v : V) (cbs : List CbOutcome) (herr : e.readerror ≠ none) :
+    ∃ m, (announceC o caught e now (.val v) cbs).msg = some m ∧ m.ve = .val v := by
+  obtain ⟨x, hx⟩ := Option.ne_none_iff_exists'.1 herr
+  rw [announceC_eq o caught hc]
+  unfold announceR
+  rw [emits_recovery o e now v x hx]
+  simp [mkMsg]
+
+/-- Callbacks that call the funnel of OTHER parameters (a following module's `update_<param>` assigning its own
+parameter, or `autoupdate`): for every history of top-level calls, every tree of such callbacks (depth 1), every outcome
+of every callback, and EVERY parameter `q` — source or follower — replaying the messages of `q` in the stream gives
+what the cache holds for `q`. -/
+theorem replay_eq_cache_reentrant (o : Oracle V E) (ex : V → X) (h : ExportExact o ex) (caught : CbOutcome → Bool)
+    (hc : ∀ oc, caught oc = true) (es : Nat → Entry V E) (xs : List (MEv V E)) (q : Nat) :
+    replay ((es q).ve.map ex) ((projM q (runM o caught es xs).msgs).map (fun m => m.ve.map ex)) =
+      ((runM o caught es xs).es q).ve.map ex := by
+  obtain ⟨evs, h1, h2⟩ := runM_proj o caught hc q es xs
+  rw [h1, h2]
+  exact replay_runR o ex h (es q) evs
+
+/-- The hypothesis is needed: if one outcome is not caught (e.g. only `TypeError` is), a callback ending that way
+makes the funnel store the new state without a message — a lost value and a lost recovery. -/
+theorem callback_escape_breaks (caught : CbOutcome → Bool) (oc : CbOutcome) (hesc : caught oc = false) :
+    (∃ (e : Entry Nat Nat) (evs : List (CEv Nat Nat)),
+      replay e.ve ((runC ⟨fun a b => a == b, .ok, .ok⟩ caught e evs).msgs.map (·.ve)) ≠
+        (runC ⟨fun a b => a == b, .ok, .ok⟩ caught e evs).entry.ve) ∧
+    (∃ (e : Entry Nat Nat), e.readerror ≠ none ∧
+      (announceC ⟨fun a b => a == b, .ok, .ok⟩ caught e 7 (.val e.value) [oc]).msg = none) := by
+  refine ⟨⟨⟨5, none, 1, 0⟩, [⟨7, .val 6, [oc]⟩], ?_⟩, ⟨⟨5, some 1, 1, 0⟩, by simp, ?_⟩⟩
+  · simp [runC, announceC, emits, changed, runCallbacks, hesc, replay, commit, storeValue, storeError, stamp, Entry.ve]
+  · simp [announceC, emits, changed, runCallbacks, hesc]
+
+/-- and catching `TypeError` only (the seeded change C05-m3) does leave `other` uncaught -/
+example : catches ["TypeError"] .other = false ∧ catches ["TypeError"] .typeError = true := by decide
+
 end sequential
 
 
@@ -186,7 +242,7 @@ theorem interleaving_atomic (c : Cfg V E) (init : Pid → Entry V E) (progs : Ti
         fun h => ⟨s.hist p, h, Or.inl rfl⟩
       cases hpc : (s.thr t).pc with
       | idle => rw [hpc] at hp'; cases hp'
-      | locked _ _ => rw [hpc] at hmid; exact same (hmid.2 k hk)
+      | locked _ _ _ => rw [hpc] at hmid; exact same (hmid.2 k hk)
       | timed _ _ _ => rw [hpc] at hmid; exact same (hmid.2 k hk)
       | compared _ _ _ _ => rw [hpc] at hmid; exact same (hmid.2.2 k hk)
       | stored _ _ _ _ => rw [hpc] at hmid; exact same (hmid.2.2 k hk)
@@ -323,10 +379,16 @@ theorem load_parameters_fails :
   ⟨⟨exE, 7, by simp [Reconstructs, replay, poke, Entry.ve, exE]⟩,
    ⟨⟨5, some 1, 100, 10⟩, 5, by simp [RecoveryAnnounced, poke, Entry.ve]⟩⟩
 
+/-- source parameter 0 with two followers: the first assigns parameter 1 and then raises, the second hands the value
+to parameter 2; the messages come in the order follower 1, follower 2, source -/
+example : (announceM exO (catches Frappy.Generated.C05.callbackCaught) (fun _ => exE) 0 101 (.val 6)
+      [⟨some ⟨1, 101, .val 6, []⟩, .other⟩, ⟨some ⟨2, 101, .val 7, [.typeError]⟩, .ok⟩]).msgs.map (fun m => (m.1, m.2.ve)) =
+    [(1, .val 6), (2, .val 7), (0, .val 6)] := by decide
+
 def exCfg : Cfg Nat Nat := ⟨exO, [1, 2], 1⟩
 def exProgs : Tid → List (Op Nat Nat)
-  | 0 => [.accAcquire, .announce 0 (.value 6 false), .accRelease]
-  | 1 => [.announce 0 (.error 1)]
+  | 0 => [.accAcquire, .announce 0 (.value 6 false) .absent, .accRelease]
+  | 1 => [.announce 0 (.error 1) (.ticks 0)]
   | _ => []
 def exInit : Pid → Entry Nat Nat := fun _ => exE
 def exS0 : Sys Nat Nat := Sys.init exInit exProgs 101
